@@ -1,24 +1,41 @@
-"""Validation of the specification `KDefSpec.sigOfDefinition` / `traceStepsR` and of the translation `Pi2/Gen/PyKDef.lean` on generated Kore
-definitions (run: python3 -m vlib.try_kdef [n] [seed]; called from `vlib/props/c20.py`).
+"""Validation of the specification `KDefSpec.sigOfDefinition` / `sigOfDefinitionM` / `traceStepsR` and of the translation `Pi2/Gen/PyKDef.lean` on
+generated Kore definitions (run: python3 -m vlib.try_kdef [n] [seed]; called from `vlib/props/c20.py`).
 
 For worlds of `vlib/kgen.py` (signature, rewrite rules, traces) a Kore definition is written in the protocol
   (def (module N (sort N 0|1) (symbol N (vars ..) (params ..) SORT (attrs ..)) (axiom T) (import M) (other)) ..)
 the way `harness/py/py_kore.py: definition` builds it for the C20 check, plus what the check's own definitions never contain: axioms
 that are NOT rules between the rules (so ordinals differ from positions in the rule list), equational axioms, hooked sorts, `constructor`
 attributes, sentences of other classes — and deliberately broken definitions (a sort / symbol declared twice, a symbol over an undeclared
-sort or an unbound sort variable, a rule that uses a symbol declared after it, an `Import` of an unknown module).  Compared:
-  1. SPEC vs CHECK: `sigOfDefinition` (driver `pi2gen`, command `kdef`) against the `Sig` and the converted rules the check builds from
+sort or an unbound sort variable, a rule that uses a symbol declared after it, an `Import` of an unknown module).
+
+Definitions with SEVERAL modules (`make_multi`, 2-4 modules, every sort / symbol name declared once in the whole definition, no self import)
+are INSIDE the specification (`KDefSpec.sigOfDefinitionM`; the driver answers with it for any number of modules and says
+`(one-module-spec-differs)` when the one-module specification disagrees with it on a one-module definition): the declarations and rules of
+a world are spread over the modules — import chains 0<-1<-2.., a diamond (3 imports 1 and 2, which both import 0), a module with a rule
+that the LAST (= main) module does not import (the rule is then not among the rules `get_axiom` finds; its scope stays cached), random
+import graphs; symbol declarations only in modules that see the sort they use (own or transitively imported), a rule anywhere after the
+declarations it uses (imported or not), sorts before the imports, rules between the declarations, axioms that are not rules between the
+rules of different modules (one counter).  Broken ones (`broken_multi`): the import of a later / an unknown module, a module name taken
+twice, the same module imported twice by one module, a symbol over a sort of a module that is not imported (directly or through a module
+that does not import it either), a sort / symbol declared twice in ONE module, a rule over a symbol that a LATER module declares.
+(Self imports are not generated: the real code accepts them and then recurses without end, the specification refuses them.)
+
+Compared:
+  1. SPEC vs CHECK: `sigOfDefinitionM` (driver `pi2gen`, command `kdef`) against the `Sig` and the converted rules the check builds from
      the generator's knowledge (`KWorld.sig_sx`, `kconv` of every rule by the model driver `pi2drv`), with the ordinals the generator
-     knows (position among ALL axioms);
+     knows (position among ALL axioms of ALL modules), the rules being those of the modules the last module reaches; the modules (name,
+     imports, reach as a set, own sorts / symbols / rule ordinals) and the scopes of ALL rules against the generator's knowledge;
   2. SPEC vs REAL and TEXT vs REAL: the REAL `LanguageSemantics.from_kore_definition` (harness command `kdef`: every module's sorts, symbols,
      axioms with ordinals, the cached scopes, the counter) against the store the GENERATED `from_kore_definition` returns (differential test
-     of the translator) and against the specification (refusal, signature, ordinals, patterns, scopes);
+     of the translator) and against the specification (`spec_vs_real`: refusal; per module the own sorts / symbols / rule ordinals; the
+     sorts and symbol flags of all modules against the signature; the axioms of the modules the last module reaches against the rules
+     — ordinal, kind, pattern; the cached scopes of all rules; the counter);
   2b. `count_simplifications` (`kcount`): the generated function vs the real one on converted terms (no specification: the function is not used
      by the pipeline);
   3. hint streams (`khints`): REAL `get_proof_hints` vs the generated one vs `traceStepsR` — hints (axiom, configurations, substitution) and the
-     scopes after the trace; streams with events that are not rule events, rule events not followed by a configuration, unknown ordinals,
-     ordinals of skipped axioms, substitutions with a repeated / unknown variable.
-Definitions outside the fragment of the specification (two modules with an `Import`) are compared TEXT vs REAL only."""
+     scopes (of ALL rules) after the trace; streams with events that are not rule events, rule events not followed by a configuration, unknown
+     ordinals, ordinals of skipped axioms, substitutions with a repeated / unknown variable; on definitions with several modules the same
+     streams, and a one-step stream whose rule lives in a module the main module does not import: both sides must raise."""
 from __future__ import annotations
 
 import json
@@ -94,9 +111,213 @@ def broken(w, rng):
 
 
 def two_modules(w, rng):
-    """outside the fragment of the specification: the declarations in module 0, the rules in module 1 that imports it (TEXT vs REAL only)"""
+    """the declarations and one axiom that is not a rule in module 0, the rules in module 1 that imports it"""
     decls = ' '.join(['(sort %d 0)' % s for s in w.sorts] + [sym_sx(w, d, rng) for d in w.syms])
     return '(def (module 0 %s (axiom (top (s %d)))) (module 1 (import 0) %s))' % (decls, w.sorts[0], ' '.join(rule_sx(r) for r in w.rules))
+
+
+def one_module_info(w, ords, eqs):
+    """what the generator knows of the module of `make_def`, in the shape of the specification's `mods`"""
+    return [['0', [], [], [str(s) for s in w.sorts], [str(d[0]) for d in w.syms], [str(o) for o in sorted(ords + [o for o, _ in eqs])]]]
+
+
+# ---------------------------------------------------------------------------------------------------------------------------------
+# definitions with several modules
+# ---------------------------------------------------------------------------------------------------------------------------------
+
+SHAPES_CLOSED = ('chain', 'diamond')        # the last module reaches every module
+SHAPES_OPEN = ('island', 'random')          # a module (with a rule) the last module does not import / any import graph
+
+
+def term_uses(t, syms=None, sorts=None):
+    """-> (symbol names, sort names) a Kore term of the protocol mentions (the conversion looks every one of them up)"""
+    syms = set() if syms is None else syms
+    sorts = set() if sorts is None else sorts
+    k = t[0]
+    if k == 's':
+        sorts.add(t[1])
+    elif k == 'app':
+        syms.add(t[1])
+        for x in tuple(t[2]) + tuple(t[3]):
+            term_uses(x, syms, sorts)
+    elif k == 'dv':
+        term_uses(t[1], syms, sorts)
+    elif k not in ('sv', 'evar'):
+        for x in t[1:]:
+            if isinstance(x, tuple):
+                term_uses(x, syms, sorts)
+    return syms, sorts
+
+
+def shape_imports(shape, rng):
+    """-> (for every module the INDICES of the (earlier) modules it imports, in the order of its Import sentences; the index of a module that
+    the last module does not reach and that must hold a rule, or None)"""
+    if shape == 'chain':
+        k = rng.randint(2, 4)
+        return [[]] + [[i - 1] for i in range(1, k)], None
+    if shape == 'diamond':
+        last = [1, 2]
+        rng.shuffle(last)
+        return [[], [0], [0], last], None
+    if shape == 'island':
+        k = rng.randint(3, 4)
+        isl = rng.randint(1, k - 2)
+        imps = [[]]
+        for i in range(1, k):
+            if i == isl:
+                sub = [j for j in range(i) if rng.random() < 0.6]
+            else:
+                cand = [j for j in range(i) if j != isl]
+                sub = [j for j in cand if rng.random() < 0.6] or [rng.choice(cand)]
+            rng.shuffle(sub)
+            imps.append(sub)
+        return imps, isl
+    k = rng.randint(2, 4)
+    imps = [[]]
+    for i in range(1, k):
+        sub = [j for j in range(i) if rng.random() < 0.6]
+        rng.shuffle(sub)
+        imps.append(sub)
+    return imps, None
+
+
+def make_multi(w, rng, shape):
+    """a definition of 2-4 modules with the declarations and rules of `w` -> dict: text; ords (ordinal of every rule of `w.rules`);
+    eqs [(ordinal, term)]; nax; mods (the generator's knowledge in the shape of the specification's `mods`, reach sorted); found (the
+    (ordinal, kind) of the rules in the modules the last module reaches); hidden (indices of the rules of `w.rules` in the other modules).
+    Every sort / symbol is declared once; the sorts and the symbols keep the order of the world over the whole definition (the signature
+    of the specification lists them in the order of the sentences)."""
+    imps, forced = shape_imports(shape, rng)
+    k = len(imps)
+    names = rng.sample(range(9), k) if rng.random() < 0.5 else list(range(k))
+    reach = []
+    for i in range(k):
+        r = set()
+        for j in imps[i]:
+            r |= {j} | reach[j]
+        reach.append(r)
+    # the symbols of `sym_sx` are over the first sort, which module 0 declares: a symbol may be declared by module 0 and the modules that reach it
+    eligible = [i for i in range(k) if i == 0 or 0 in reach[i]]
+    rule_uses = [term_uses(r) for r in w.rules]
+    for attempt in range(30):
+        spread = attempt < 20            # afterwards: every declaration in module 0 (always possible)
+        cur, sort_at, sym_at = 0, {}, {}
+        for n_, s_ in enumerate(w.sorts):
+            if n_ and spread and rng.random() < 0.4:
+                cur = rng.randint(cur, eligible[-1])
+            sort_at[s_] = cur
+        for d in w.syms:
+            if spread and rng.random() < 0.4:
+                cur = rng.randint(cur, eligible[-1])
+            cur = min(e for e in eligible if e >= cur)
+            sym_at[d[0]] = cur
+
+        def first_module(uses):
+            return max([sym_at[f] for f in uses[0]] + [sort_at[s_] for s_ in uses[1]] + [0])
+        mins = [first_module(u) for u in rule_uses]
+        if forced is None or any(m <= forced for m in mins):
+            break
+    rule_mod = [rng.randint(m, k - 1) for m in mins]
+    if forced is not None:
+        rule_mod[rng.choice([j for j, m in enumerate(mins) if m <= forced])] = forced
+    items = []
+    for i in range(k):
+        imp = [('import', names[j]) for j in imps[i]]
+        own_sorts = [('sort', s_) for s_ in w.sorts if sort_at[s_] == i]
+        own_syms = [('sym', d) for d in w.syms if sym_at[d[0]] == i]
+        if rng.random() < 0.3:
+            items.append(own_sorts + imp + own_syms)       # the imports after the own sorts (before the symbols, which may need them)
+        else:
+            items.append(imp + own_sorts + own_syms)
+
+    def declared(i, p):
+        syms, sorts = set(), set()
+        for m in range(i + 1):
+            for it in (items[m] if m < i else items[m][:p]):
+                if it[0] == 'sort':
+                    sorts.add(it[1])
+                elif it[0] == 'sym':
+                    syms.add(it[1][0])
+        return syms, sorts
+
+    def insert(i, item, uses):
+        """somewhere in module i after the declarations the item uses"""
+        lo = next(p for p in range(len(items[i]) + 1) if uses[0] <= declared(i, p)[0] and uses[1] <= declared(i, p)[1])
+        items[i].insert(len(items[i]) if rng.random() < 0.5 else rng.randint(lo, len(items[i])), item)
+    for j in range(len(w.rules)):
+        insert(rule_mod[j], ('rule', j), rule_uses[j])
+    s0 = ('s', w.sorts[0])
+    skipped = [('top', s0), ('rewrites', s0, w.c(w.consts[0]), w.c(w.consts[1])), ('implies', s0, ('top', s0), ('bottom', s0)),
+               ('and', s0, ('top', s0), ('equals', s0, s0, w.c(w.consts[0]), w.c(w.consts[0])))]
+    eqs_ = [('implies', s0, ('top', s0), ('equals', s0, s0, ('evar', 5), w.c(w.consts[0]))),
+            ('implies', ('sv', 1), ('top', s0), ('and', s0, ('equals', s0, ('sv', 1), w.term(1, [2, 4]), ('evar', 2)), ('top', s0))),
+            ('implies', s0, ('evar', 1), ('and', s0, ('top', s0), ('equals', s0, s0, w.c(w.consts[1]), ('evar', 1))))]
+    for i in range(k):
+        for _ in range(rng.choice((0, 0, 1, 2))):
+            if rng.random() < 0.6:
+                insert(i, ('skip', rng.choice(skipped)), (set(), set()))       # an axiom that is not a rule is not converted: anywhere
+            else:
+                e = rng.choice(eqs_)
+                if first_module(term_uses(e)) <= i:
+                    insert(i, ('eq', e), term_uses(e))
+        if rng.random() < 0.1:
+            insert(i, ('other',), (set(), set()))
+    if rng.random() < 0.7:
+        insert(rng.randrange(k - 1), ('skip', rng.choice(skipped)), (set(), set()))     # a gap in the ordinals before the last module
+    main = reach[k - 1] | {k - 1}
+    o, ords, eqs, found, mods, texts = 0, [None] * len(w.rules), [], [], [], []
+    for i in range(k):
+        sents, own = [], []
+        for it in items[i]:
+            if it[0] == 'import':
+                sents.append('(import %d)' % it[1])
+            elif it[0] == 'sort':
+                sents.append('(sort %d %d)' % (it[1], rng.random() < 0.3))
+            elif it[0] == 'sym':
+                sents.append(sym_sx(w, it[1], rng, ctor=rng.random() < 0.4))
+            elif it[0] == 'other':
+                sents.append('(other)')
+            elif it[0] == 'skip':
+                sents.append('(axiom %s)' % kgen.tsx(it[1]))
+                o += 1
+            else:
+                if it[0] == 'rule':
+                    sents.append(rule_sx(w.rules[it[1]]))
+                    ords[it[1]] = o
+                else:
+                    sents.append('(axiom %s)' % kgen.tsx(it[1]))
+                    eqs.append((o, it[1]))
+                own.append(o)
+                if i in main:
+                    found.append((o, 'rw' if it[0] == 'rule' else 'eq'))
+                o += 1
+        texts.append('(module %d %s)' % (names[i], ' '.join(sents)))
+        mods.append([str(names[i]), [str(names[j]) for j in imps[i]], sorted(str(names[j]) for j in reach[i]),
+                     [str(it[1]) for it in items[i] if it[0] == 'sort'], [str(it[1][0]) for it in items[i] if it[0] == 'sym'], [str(x) for x in own]])
+    return {'text': '(def %s)' % ' '.join(texts), 'ords': ords, 'eqs': eqs, 'nax': o, 'mods': mods, 'found': sorted(found), 'shape': shape,
+            'hidden': [j for j in range(len(w.rules)) if rule_mod[j] not in main], 'modules': k}
+
+
+def broken_multi(w, rng):
+    """definitions with several modules that must be refused (no self import): text, what"""
+    sorts = ' '.join('(sort %d 0)' % s for s in w.sorts)
+    syms = ' '.join(sym_sx(w, d, rng) for d in w.syms)
+    decls = sorts + ' ' + syms
+    rules = ' '.join(rule_sx(r) for r in w.rules)
+    s0 = '(s %d)' % w.sorts[0]
+    extra = '(symbol 500 (vars) (params %s) %s (attrs))' % (s0, s0)
+    return [('(def (module 0 (import 1) %s) (module 1 (import 0) %s))' % (decls, rules), 'the import of a LATER module'),
+            ('(def (module 0 %s) (module 1 (import 0) (import 7) %s))' % (decls, rules), 'the import of an unknown module (second module)'),
+            ('(def (module 0 %s) (module 0 %s))' % (decls, rules), 'two modules of the same name'),
+            ('(def (module 2 %s) (module 1 (import 2)) (module 1 (import 2) %s))' % (decls, rules), 'two modules of the same name (second and third)'),
+            ('(def (module 0 %s) (module 1 (import 0) (import 0) %s))' % (decls, rules), 'the same module imported twice by one module'),
+            ('(def (module 0 %s) (module 1 %s %s))' % (decls, extra, rules), 'a symbol over a sort of an earlier module that is not imported'),
+            ('(def (module 0 %s) (module 1 (axiom (top %s))) (module 2 (import 1) %s %s))' % (decls, s0, extra, rules),
+             'a symbol over a sort of a module that is imported neither directly nor through the imported module'),
+            ('(def (module 0 %s) (module 1 (import 0) (sort 50 0) %s (sort 50 1)))' % (decls, rules), 'a sort declared twice in ONE (the second) module'),
+            ('(def (module 0 %s) (module 1 (import 0) %s %s %s))' % (decls, extra, rules, extra), 'a symbol declared twice in ONE (the second) module'),
+            ('(def (module 0 %s %s) (module 1 (import 0) %s))' % (sorts, rules, syms), 'a rule over symbols that a LATER module declares'),
+            ('(def (module 0 %s) (module 1 %s (import 0) %s))' % (decls, extra, rules), 'a symbol over a sort of a module that is imported only AFTER the declaration')]
 
 
 def trace_sx(w, init, steps, ords, rng, noise):
@@ -126,21 +347,52 @@ def split2(ans, head):
     return sx.dump(x[1]), sx.dump(x[2])
 
 
+def real_sym(e):
+    """a symbol of the real dump in the shape of the signature: name, number of sort parameters / inputs, cell, functional, kseq"""
+    return [e[0], str(len(e[1])), str(len(e[2])), e[6], e[4], '1' if e[0] == '999' else '0']
+
+
+def spec_vs_real(x, ax):
+    """the parsed specification answer `(spec sig rules naxioms mods allscopes)` against the parsed real dump `(ls module.. scopes counters)`
+    -> the list of what differs (empty: they agree)"""
+    sig, rules, naxioms, mods, allscopes = x[1], x[2][1:], x[3][1], x[4][1:], x[5][1:]
+    rmods = ax[1:-2]
+    diffs = []
+    if [rm[1] for rm in rmods] != [m[0] for m in mods]:
+        diffs.append('the names of the modules')
+    else:
+        for rm, m in zip(rmods, mods):
+            for what, got, want in (('own sorts', [e[0] for e in rm[2][1:]], m[3]), ('own symbols', [e[0] for e in rm[3][1:]], m[4]),
+                                    ('own rule ordinals', [e[0] for e in rm[4][1:]], m[5])):
+                if got != want:
+                    diffs.append(f'the {what} of module {m[0]}')
+        if mods:
+            # `get_axiom` = that of the main (= last) module: its own axioms and those of the modules it reaches
+            main = set(mods[-1][2]) | {mods[-1][0]}
+            found = sorted((e for rm in rmods if rm[1] in main for e in rm[4][1:]), key=lambda e: int(e[0]))
+            if [[e[0], e[1], e[2]] for e in found] != [[r[0], r[1], r[2]] for r in rules]:
+                diffs.append('the rules of the modules the last module reaches (ordinal, kind, pattern)')
+    if [e[0] for rm in rmods for e in rm[2][1:]] != sig[1]:
+        diffs.append('the sorts of all modules')
+    if [real_sym(e) for rm in rmods for e in rm[3][1:]] != sig[2]:
+        diffs.append('the symbols of all modules (flags)')
+    if sorted(([e[0], e[1], e[2]] for e in ax[-2][1:]), key=lambda e: int(e[0])) != sorted(allscopes, key=lambda e: int(e[0])):
+        diffs.append('the cached scopes of all rules')
+    if any([r[0], r[3], r[4]] not in allscopes for r in rules):
+        diffs.append('the scope of a rule and its entry in the scopes of all rules')
+    if ax[-1][1] != [naxioms]:
+        diffs.append('the counter')
+    return diffs
+
+
 def compare(worlds, rng):
     """-> (findings, counters)"""
     findings, reqs, info = [], [], []
-    for w in worlds:
-        d, ords, eqs, nax = make_def(w, rng)
-        reqs.append('kdef ' + d); info.append(('good', w, d, ords, eqs, nax))
-        for bd, what in rng.sample(broken(w, rng), 3):
-            reqs.append('kdef ' + bd); info.append(('broken', w, bd, what))
-        reqs.append('kdef ' + two_modules(w, rng)); info.append(('outside', w, None))
-        # count_simplifications (TEXT vs REAL only): rule sides and random terms, with constructor / cell / non-functional heads
-        for t in [w.rules[0][2], w.rules[0][3], w.term(3, [0, 1]), w.term(2, []), ('and', ('s', w.sorts[0]), w.term(2, [1]), ('not', ('s', w.sorts[0]), w.term(1, [])))]:
-            reqs.append('kcount %s %s' % (d, kgen.tsx(t))); info.append(('count', w, None))
+
+    def streams(w, d, ords, eqs, nax, kind):
         for flavour in ('match', 'mismatch'):
             init, steps, _ = w.trace(rng.randint(0, 4), flavour)
-            reqs.append('khints %s %s' % (d, trace_sx(w, init, steps, ords, rng, True))); info.append(('hints', w, d))
+            reqs.append('khints %s %s' % (d, trace_sx(w, init, steps, ords, rng, True))); info.append((kind, w, d))
         # unknown ordinal / ordinal of a skipped axiom / unknown variable / repeated variable
         init, steps, _ = w.trace(2, 'match')
         if steps:
@@ -151,9 +403,38 @@ def compare(worlds, rng):
                                ('the ordinal of an axiom that is not a rule', '(rule %d (%s))' % (next((o for o in range(nax) if o not in ords and o not in [e[0] for e in eqs]), nax + 5), kvs)),
                                ('a substitution for an unknown variable', '(rule %d (%s (77 %s)))' % (ords[i], kvs, kgen.tsx(w.c(w.consts[0])))),
                                ('a substitution with a repeated variable', '(rule %d (%s %s))' % (ords[i], kvs, kvs))):
-                reqs.append('khints %s (trace %s %s %s)' % (d, kgen.tsx(init), item, c)); info.append(('hints', w, d))
+                reqs.append('khints %s (trace %s %s %s)' % (d, kgen.tsx(init), item, c)); info.append((kind, w, d))
         for o, e in eqs[:1]:
-            reqs.append('khints %s (trace %s (rule %d ()) (config %s))' % (d, kgen.tsx(init), o, kgen.tsx(init))); info.append(('hints', w, d))
+            reqs.append('khints %s (trace %s (rule %d ()) (config %s))' % (d, kgen.tsx(init), o, kgen.tsx(init))); info.append((kind, w, d))
+
+    for wi, w in enumerate(worlds):
+        d, ords, eqs, nax = make_def(w, rng)
+        reqs.append('kdef ' + d)
+        info.append(('good', w, {'text': d, 'ords': ords, 'eqs': eqs, 'nax': nax, 'mods': one_module_info(w, ords, eqs), 'modules': 1, 'hidden': [],
+                                 'found': sorted([(o, 'rw') for o in ords] + [(o, 'eq') for o, _ in eqs])}))
+        for bd, what in rng.sample(broken(w, rng), 3):
+            reqs.append('kdef ' + bd); info.append(('broken', w, bd, what))
+        reqs.append('kdef ' + two_modules(w, rng)); info.append(('two', w, None))
+        # count_simplifications (TEXT vs REAL only): rule sides and random terms, with constructor / cell / non-functional heads
+        for t in [w.rules[0][2], w.rules[0][3], w.term(3, [0, 1]), w.term(2, []), ('and', ('s', w.sorts[0]), w.term(2, [1]), ('not', ('s', w.sorts[0]), w.term(1, [])))]:
+            reqs.append('kcount %s %s' % (d, kgen.tsx(t))); info.append(('count', w, None))
+        streams(w, d, ords, eqs, nax, 'hints')
+        # several modules: one definition whose last module reaches all modules, one where it need not (a module with a rule it does not import)
+        for shape in (SHAPES_CLOSED[wi % 2], SHAPES_OPEN[(wi // 2) % 2]):
+            m = make_multi(w, rng, shape)
+            reqs.append('kdef ' + m['text']); info.append(('multi', w, m))
+            streams(w, m['text'], m['ords'], m['eqs'], m['nax'], 'mhints')
+            for j in m['hidden'][:2]:
+                # one step by a rule of a module the main module does not import (substitution by constants, configurations that fit): `get_axiom` raises
+                sg = {v: w.c(w.consts[0]) for v in kgen.evars(w.rules[j][2])}
+                init = kgen.subst(w.rules[j][2], sg)
+                reqs.append('khints %s (trace %s (rule %d (%s)) (config %s))' % (m['text'], kgen.tsx(init), m['ords'][j], ' '.join('(%d %s)' % (v, kgen.tsx(t)) for v, t in sg.items()),
+                                                                              kgen.tsx(kgen.subst(w.rules[j][3], sg))))
+                info.append(('mhints-hidden', w, m))
+        bm = broken_multi(w, rng)
+        for t in range(3):
+            bd, what = bm[(3 * wi + t) % len(bm)]
+            reqs.append('kdef ' + bd); info.append(('mbroken', w, bd, what))
     gen = core.lean_gen(reqs)
     if gen is None:
         return findings, {'skipped': 'pi2gen did not build'}
@@ -161,16 +442,18 @@ def compare(worlds, rng):
     # the check's own construction of the rules: the model conversion under the FULL signature
     conv_reqs, conv_at = [], {}
     for k, it in enumerate(info):
-        if it[0] == 'good':
-            _, w, d, ords, eqs, nax = it
+        if it[0] in ('good', 'multi'):
+            w, m = it[1], it[2]
             for j, r in enumerate(w.rules):
-                conv_at[(k, ords[j])] = len(conv_reqs)
+                conv_at[(k, m['ords'][j])] = len(conv_reqs)
                 conv_reqs.append('kconv %s %s' % (w.sig_sx(), kgen.tsx(('rewrites', r[1], r[2], r[3]))))
-            for o, e in eqs:
+            for o, e in m['eqs']:
                 conv_at[(k, o)] = len(conv_reqs)
                 conv_reqs.append('kconv %s %s' % (w.sig_sx(), kgen.tsx(e)))
     conv = core.lean_drv(conv_reqs)
-    n = {'definitions': 0, 'refused': 0, 'hint_streams': 0, 'hint_streams_ok': 0, 'outside_fragment': 0, 'rules_checked': 0}
+    n = {'definitions': 0, 'refused': 0, 'hint_streams': 0, 'hint_streams_ok': 0, 'rules_checked': 0, 'two_modules': 0, 'multi_definitions': 0, 'multi_modules': 0,
+         'multi_with_hidden_rules': 0, 'multi_hidden_rules': 0, 'multi_scopes_checked': 0, 'multi_refused': 0, 'multi_hint_streams': 0, 'multi_hint_streams_ok': 0,
+         'multi_hint_streams_hidden_rule': 0, 'multi_shapes': {}}
     for k, (l, g, a, it) in enumerate(zip(reqs, gen, real, info)):
         kind = it[0]
         if kind == 'count':
@@ -189,8 +472,12 @@ def compare(worlds, rng):
         if text != a:
             findings.append({'key': 'builder-text-differs', 'request': l[:2500], 'lean': text[:1200], 'python': a[:1200],
                              'what': 'correspondence: the generated from_kore_definition / get_proof_hints (Pi2/Gen/PyKDef.lean) and the real code differ'})
-        if kind == 'outside':
-            n['outside_fragment'] += 1
+        if spec == '(one-module-spec-differs)':
+            findings.append({'key': 'one-module-spec-differs', 'request': l[:2500],
+                             'what': 'sigOfDefinition (one module) and sigOfDefinitionM (any number of modules) differ on a one-module definition'})
+            continue
+        if kind == 'two':
+            n['two_modules'] += 1
             # REAL vs the generator's knowledge: the ordinals run on across the modules (module 0 has one axiom, which is not a rule)
             if a.startswith('(ls '):
                 ax = sx.parse(a)[0]
@@ -198,34 +485,47 @@ def compare(worlds, rng):
                 if got != [str(i + 1) for i in range(len(it[1].rules))] or ax[-1][1] != [str(len(it[1].rules) + 1)]:
                     findings.append({'key': 'multi-module-ordinals', 'request': l[:2500], 'python': a[:600],
                                      'what': 'two modules: the ordinals of the second module do not continue the count of the first'})
+                # SPEC vs REAL (the definition is inside the specification `sigOfDefinitionM`)
+                diffs = spec_vs_real(sx.parse(spec)[0], ax) if spec.startswith('(spec ') else ['the specification refuses']
+                if diffs:
+                    findings.append({'key': 'spec-vs-real', 'request': l[:2500], 'spec': spec[:1000], 'python': a[:1000], 'differs': diffs,
+                                     'what': 'sigOfDefinitionM differs from the real LanguageSemantics on a two-module definition: ' + '; '.join(diffs)})
             else:
                 findings.append({'key': 'multi-module-refused', 'request': l[:2500], 'python': a[:300], 'what': 'a two-module definition with an import is refused'})
-            if spec != '(refused)':
-                findings.append({'key': 'spec-fragment', 'request': l[:1500], 'what': 'sigOfDefinition answers on a two-module definition'})
             continue
-        if kind == 'broken':
-            n['refused'] += 1
+        if kind in ('broken', 'mbroken'):
+            n['refused' if kind == 'broken' else 'multi_refused'] += 1
             if spec != '(refused)' or a != '(raise)':
                 findings.append({'key': 'spec-refusal', 'request': l[:2500], 'spec': spec[:300], 'python': a[:300],
                                  'what': f'a definition with {it[3]}: the specification and the real builder do not both refuse it'})
             continue
-        if kind == 'good':
-            _, w, d, ords, eqs, nax = it
-            n['definitions'] += 1
+        if kind in ('good', 'multi'):
+            w, m = it[1], it[2]
+            ords, eqs, nax = m['ords'], m['eqs'], m['nax']
+            if kind == 'good':
+                n['definitions'] += 1
+            else:
+                n['multi_definitions'] += 1
+                n['multi_modules'] += m['modules']
+                n['multi_with_hidden_rules'] += bool(m['hidden'])
+                n['multi_hidden_rules'] += len(m['hidden'])
+                n['multi_shapes'][m['shape']] = n['multi_shapes'].get(m['shape'], 0) + 1
             if not spec.startswith('(spec ') or not a.startswith('(ls '):
                 findings.append({'key': 'spec-refuses', 'request': l[:2500], 'spec': spec[:300], 'python': a[:300],
                                  'what': 'the specification / the real builder refuses a definition of the generator'})
                 continue
             x = sx.parse(spec)[0]
-            sig, rules, naxioms = x[1], x[2][1:], x[3][1]
+            sig, rules, naxioms, mods, allscopes = x[1], x[2][1:], x[3][1], x[4][1:], x[5][1:]
             want_sig = sx.parse(w.sig_sx())[0]
             if sig != want_sig or int(naxioms) != nax:
                 findings.append({'key': 'spec-sig-differs', 'request': l[:2500], 'spec': sx.dump(sig)[:600], 'check': w.sig_sx()[:600],
-                                 'what': 'sigOfDefinition: the signature / the number of axioms differs from what the check builds from the generator'})
-            want = sorted([(o, 'rw') for o in ords] + [(o, 'eq') for o, _ in eqs])
-            if [(int(r[0]), r[1]) for r in rules] != want:
-                findings.append({'key': 'spec-ordinals', 'request': l[:2500], 'spec': str([(r[0], r[1]) for r in rules]), 'check': str(want),
-                                 'what': 'sigOfDefinition: the ordinals / kinds of the rules differ from the positions of the axioms'})
+                                 'what': 'sigOfDefinitionM: the signature / the number of axioms differs from what the check builds from the generator'})
+            if [(int(r[0]), r[1]) for r in rules] != m['found']:
+                findings.append({'key': 'spec-ordinals', 'request': l[:2500], 'spec': str([(r[0], r[1]) for r in rules]), 'check': str(m['found']),
+                                 'what': 'sigOfDefinitionM: the ordinals / kinds of the rules differ from the positions of the axioms (of the modules the last module reaches)'})
+            if [[e[0], e[1], sorted(set(e[2])), e[3], e[4], e[5]] for e in mods] != m['mods']:
+                findings.append({'key': 'spec-modules', 'request': l[:2500], 'spec': sx.dump(x[4])[:600], 'check': str(m['mods'])[:600],
+                                 'what': 'sigOfDefinitionM: the modules (name, imports, reach, own sorts / symbols / rule ordinals) differ from the generator\'s knowledge'})
             for r in rules:
                 c = conv[conv_at[(k, int(r[0]))]] if (k, int(r[0])) in conv_at else None
                 n['rules_checked'] += 1
@@ -235,25 +535,45 @@ def compare(worlds, rng):
                 cx = sx.parse(c)[0]
                 if cx[1] != r[2] or cx[2][1] != r[3] or cx[2][2] != r[4]:
                     findings.append({'key': 'spec-rule-differs', 'request': l[:2500], 'ordinal': r[0], 'spec': sx.dump(r)[:800], 'check': c[:800],
-                                     'what': 'sigOfDefinition: the converted pattern / scope of a rule differs from the conversion the check does (full signature, fresh scope)'})
+                                     'what': 'sigOfDefinitionM: the converted pattern / scope of a rule differs from the conversion the check does (full signature, fresh scope)'})
+            # the scopes of ALL rules (also of those the last module does not reach): the scope of the check's conversion
+            want_scopes = []
+            for o in sorted(ords + [o for o, _ in eqs]):
+                c = conv[conv_at[(k, o)]]
+                want_scopes.append([str(o)] + sx.parse(c)[0][2][1:3] if c.startswith('(ok ') else [str(o), 'not converted'])
+            n['multi_scopes_checked'] += len(want_scopes) if kind == 'multi' else 0
+            if allscopes != want_scopes:
+                findings.append({'key': 'spec-allscopes', 'request': l[:2500], 'spec': sx.dump(x[5])[:600], 'check': sx.dump(want_scopes)[:600],
+                                 'what': 'sigOfDefinitionM: the scopes of the rules of ALL modules differ from the scopes of the check\'s conversions'})
             # the real builder: sorts, symbol flags, axioms with ordinals and scopes
             ax = sx.parse(a)[0]
-            m0 = ax[1]
-            real_sorts = [e[0] for e in m0[2][1:]]
-            real_syms = [[e[0], str(len(e[1])), str(len(e[2])), e[6], e[4], '1' if e[0] == '999' else '0'] for e in m0[3][1:]]
-            real_rules = [[e[0], e[1], e[2]] for e in m0[4][1:]]
-            real_scopes = {e[0]: (e[1], e[2]) for e in ax[-2][1:]}
-            if real_sorts != sig[1] or real_syms != sig[2] or real_rules != [[r[0], r[1], r[2]] for r in rules] \
-                    or any(real_scopes.get(r[0]) != (r[3], r[4]) for r in rules) or ax[-1][1] != [naxioms]:
-                findings.append({'key': 'spec-vs-real', 'request': l[:2500], 'spec': spec[:1000], 'python': a[:1000],
-                                 'what': 'sigOfDefinition differs from the real LanguageSemantics (sorts, symbol flags, ordinals, patterns, scopes, counter)'})
+            diffs = spec_vs_real(x, ax)
+            if kind == 'good':
+                m0 = ax[1]
+                real_rules = [[e[0], e[1], e[2]] for e in m0[4][1:]]
+                real_scopes = {e[0]: (e[1], e[2]) for e in ax[-2][1:]}
+                if len(ax) != 4 or [e[0] for e in m0[2][1:]] != sig[1] or [real_sym(e) for e in m0[3][1:]] != sig[2] or real_rules != [[r[0], r[1], r[2]] for r in rules] \
+                        or any(real_scopes.get(r[0]) != (r[3], r[4]) for r in rules) or ax[-1][1] != [naxioms]:
+                    diffs.append('the one module (sorts, symbol flags, ordinals, patterns, scopes, counter)')
+            if diffs:
+                findings.append({'key': 'spec-vs-real', 'request': l[:2500], 'spec': spec[:1000], 'python': a[:1000], 'differs': diffs,
+                                 'what': 'sigOfDefinitionM differs from the real LanguageSemantics: ' + '; '.join(diffs)})
             continue
         # hints
-        n['hint_streams'] += 1
-        n['hint_streams_ok'] += a.startswith('(hints')
+        if kind == 'hints':
+            n['hint_streams'] += 1
+            n['hint_streams_ok'] += a.startswith('(hints')
+        else:
+            n['multi_hint_streams'] += 1
+            n['multi_hint_streams_ok'] += a.startswith('(hints')
         if spec != a:
             findings.append({'key': 'hints-spec-differs', 'request': l[:3000], 'spec': spec[:1000], 'python': a[:1000],
                              'what': 'traceStepsR (specification) and the real get_proof_hints differ (hints / scopes after the trace / refusal)'})
+        if kind == 'mhints-hidden':
+            n['multi_hint_streams_hidden_rule'] += 1
+            if spec != '(raise)' or a != '(raise)':
+                findings.append({'key': 'hidden-rule-found', 'request': l[:3000], 'spec': spec[:600], 'python': a[:600],
+                                 'what': 'a hint stream whose rule lives in a module the main module does not import: the specification and the real get_proof_hints do not both raise'})
     return findings, n
 
 
